@@ -18,6 +18,7 @@ type Profile struct {
 	QKinds  []int
 	NQ      [2]int
 	WrapPct int
+	NSyncPct int // percent of the distributed backends that notify synchronously under their own lock (only for profiles without barrier calls)
 	ReenterPause bool // ... or Pause
 	ReenterTune bool // re-entrant worker functions may also call TunePool
 	ReenterPct int // percent of the single submissions whose worker function calls back into the library (introspection, or a follow-up Add)
@@ -183,6 +184,7 @@ func generate(r *simrt.Rand, pf *Profile) (Cfg, *Program) {
 			qc.FNoAckID = pick(r, pf.NoAckID)
 		}
 		if k >= qkDist {
+			qc.NSync = pf.NSyncPct > 0 && r.Chance(pf.NSyncPct)
 			qc.NDelay = pick(r, []int{0, 1, 3})
 			if pf.AdFaults {
 				qc.NDup = pick(r, []int{0, 0, 20})
